@@ -13,7 +13,8 @@ from vlib.gen import make_r_fmt, make_r_sub, r_dynw, r_unit_tail, make_r_tailbin
 
 M = "src/backend/mod.rs"
 QB = "src/backend/query_builder.rs"
-P = ["C05"]
+# C06 (the rendered predicate MEANS the conjunction that was added) rests on the text re-parsing to the tree built: every obligation here carries it too
+P = ["C05", "C06"]
 OPAQUE = ["ColumnRef", "FunctionCall", "SubQueryOper", "SubQueryStatement", "Keyword", "DynIden", "Condition"]
 BACK = {"MysqlQueryBuilder": ("MySql", "src/backend/mysql/mod.rs", "src/backend/mysql/mod.rs"),
         "PostgresQueryBuilder": ("Postgres", "src/backend/postgres/query.rs", "src/backend/postgres/query.rs"),
